@@ -76,6 +76,35 @@ func explicitErr(v ssa.Value, inClosure map[*ssa.Function]bool, depth int) bool 
 
 // guardsOf: the conditions on the edges entering b, ascending through unconditional jumps
 func guardsOf(b *ssa.BasicBlock, depth int, seen map[*ssa.BasicBlock]bool) []string {
+	return guardsOfX(b, depth, seen, false)
+}
+
+// rejectsAtOnce: the block returns a non-nil error without doing anything else (the body of `if bad { return err }`)
+func rejectsAtOnce(b *ssa.BasicBlock) bool {
+	if len(b.Instrs) == 0 {
+		return false
+	}
+	ret, ok := b.Instrs[len(b.Instrs)-1].(*ssa.Return)
+	if !ok || len(ret.Results) == 0 {
+		return false
+	}
+	last := ret.Results[len(ret.Results)-1]
+	if !isErrorType(last.Type()) || isNilConst(last) {
+		return false
+	}
+	for _, in := range b.Instrs {
+		if _, isStore := in.(*ssa.Store); isStore {
+			if _, local := in.(*ssa.Store).Addr.(*ssa.IndexAddr); !local {
+				return false
+			}
+		}
+	}
+	return true
+}
+
+// guardsOfX: with skipComplements, the edge that merely survives an immediate rejection (`if bad { return err }` not
+// taken) is not a condition of what follows: the rejection itself is in the rejection census
+func guardsOfX(b *ssa.BasicBlock, depth int, seen map[*ssa.BasicBlock]bool, skipComplements bool) []string {
 	if depth > 6 || seen[b] {
 		return nil
 	}
@@ -87,6 +116,16 @@ func guardsOf(b *ssa.BasicBlock, depth int, seen map[*ssa.BasicBlock]bool) []str
 	for _, p := range b.Preds {
 		if iff := ifOf(p); iff != nil && len(p.Succs) == 2 && p.Succs[0] != p.Succs[1] {
 			pol := p.Succs[0] == b
+			if skipComplements {
+				other := p.Succs[1]
+				if !pol {
+					other = p.Succs[0]
+				}
+				if rejectsAtOnce(other) {
+					out = append(out, guardsOfX(p, depth+1, seen, skipComplements)...)
+					continue
+				}
+			}
 			inner, same := unwrapBool(iff.Cond)
 			if !same {
 				pol = !pol
@@ -98,7 +137,7 @@ func guardsOf(b *ssa.BasicBlock, depth int, seen map[*ssa.BasicBlock]bool) []str
 			out = append(out, guardText(inner, pol))
 			continue
 		}
-		out = append(out, guardsOf(p, depth+1, seen)...)
+		out = append(out, guardsOfX(p, depth+1, seen, skipComplements)...)
 	}
 	return out
 }
@@ -572,7 +611,7 @@ func storeCensus(p *Prog) map[string][]string {
 			if root != recv {
 				return
 			}
-			gs := guardsOf(st.Block(), 0, map[*ssa.BasicBlock]bool{})
+			gs := guardsOfX(st.Block(), 0, map[*ssa.BasicBlock]bool{}, true)
 			var keep []string
 			for _, g := range gs {
 				if g == "always" || strings.Contains(g, ":error)") {
